@@ -195,7 +195,9 @@ def _simp(exprs, simplifications):
     formulas."""
     for simp in simplifications:
         mexprs = apply_simp(exprs, simp)
-        if mexprs is not None:
+        # ``exprs`` itself is returned if nothing was substituted, e.g., if
+        # the nodes of the subset have been removed by a previous success
+        if mexprs is not None and mexprs is not exprs:
             yield mexprs
 
 
